@@ -170,7 +170,7 @@ def print_assumptions(props_file):
             cur = []
             blocks.append(cur)
         elif cur is not None:
-            m = re.match(r"^([A-Za-z_][A-Za-z0-9_.']*)\s*:", line)
+            m = re.match(r"^([A-Za-z_][A-Za-z0-9_.']*)\s*(:|$)", line)
             if m:
                 cur.append(m.group(1))
             elif line and not line[0].isspace():
